@@ -190,6 +190,20 @@ def matcher_commands(repo):
         "forEachDescendant(callExpr(%s).bind(\"call\"))))))" % (here, SINGLETON_CALLEE, SINGLETON_CALLEE),
         "match ifStmt(%s, hasCondition(expr().bind(\"cond\")), hasElse(stmt(eachOf(callExpr(%s).bind(\"call\"), "
         "forEachDescendant(callExpr(%s).bind(\"call\"))))))" % (here, SINGLETON_CALLEE, SINGLETON_CALLEE),
+        # 8-10 per-function footprint (call closure of the API entry points):
+        #   8  every (function of the repository, static-storage object named anywhere inside it -- lambdas and
+        #      default arguments included) pair,
+        #   9  every (function of the repository, function named inside it: callee of a call, constructor of a
+        #      construct expression, function whose address is taken) pair,
+        #  10  the references of (8) to objects declared outside the repository that only *bind a reference*
+        #      (direct argument of a constructor / default argument of a parameter).
+        "match functionDecl(%s, forEachDescendant(declRefExpr(to(varDecl(hasStaticStorageDuration()).bind(\"var\")))"
+        ".bind(\"ref\"))).bind(\"fn\")" % here,
+        "match functionDecl(%s, forEachDescendant(expr(anyOf(declRefExpr(to(functionDecl().bind(\"callee\"))), "
+        "memberExpr(member(functionDecl().bind(\"callee\"))), "
+        "cxxConstructExpr(hasDeclaration(functionDecl().bind(\"callee\"))))))).bind(\"fn\")" % here,
+        "match declRefExpr(%s, to(varDecl(hasStaticStorageDuration(), unless(%s))), "
+        "anyOf(hasParent(cxxConstructExpr()), hasParent(parmVarDecl()))).bind(\"ref\")" % (here, here),
     ]
 
 
@@ -322,7 +336,7 @@ def parse_call_sites(lines, repo, cache=None):
     when the call sits in the else-branch.  A call in the condition of an `if` is not guarded by that `if`."""
     src = os.path.join(repo, "src") + "/"
     cache = {} if cache is None else cache
-    calls, thens, elses = split_sections(lines, 3)
+    calls, thens, elses, refs, edges, binds = split_sections(lines, 6)
     guards = {}           # (file, line, col) of the call -> {(line, col) of the condition: text}
     for blocks, neg in ((thens, False), (elses, True)):
         for b in blocks:
@@ -356,6 +370,23 @@ def parse_call_sites(lines, repo, cache=None):
     missing = set(guards) - seen
     if missing:
         raise RuntimeError("clang-query: guarded call sites not among the call sites: %s" % sorted(missing)[:3])
+    res = [dict(c, kind="singleton-call") for c in res]
+    for b in refs:
+        bound = bound_nodes(b)
+        if "fn" not in bound or "var" not in bound or "ref" not in bound:
+            raise RuntimeError("clang-query: function/static reference match without fn, var or ref: " + " | ".join(b[:6]))
+        res.append({"kind": "fn-ref", "fn": bound["fn"][:3], "var": bound["var"][:2], "site": bound["ref"][:3]})
+    for b in edges:
+        bound = bound_nodes(b)
+        if "fn" not in bound:
+            raise RuntimeError("clang-query: call edge match without fn: " + " | ".join(b[:6]))
+        # a callee without a source position (builtin) is a function outside the repository
+        res.append({"kind": "fn-edge", "fn": bound["fn"][:3], "callee": bound.get("callee", ("<builtin>", 0, 0))[:3]})
+    for b in binds:
+        bound = bound_nodes(b)
+        if "ref" not in bound:
+            raise RuntimeError("clang-query: reference-binding match without ref: " + " | ".join(b[:6]))
+        res.append({"kind": "ext-bind", "site": bound["ref"][:3]})
     return res
 
 
@@ -363,8 +394,7 @@ def parse_query_output(out, repo):
     """-> list of dicts (kind, file, line, name, type, flags) ; raises when the output has not the expected shape"""
     out, call_lines = split_query_output(out)
     res, counts = parse_query_output_decls(out, repo)
-    for c in parse_call_sites(call_lines, repo):
-        res.append(dict(c, kind="singleton-call"))
+    res += parse_call_sites(call_lines, repo)
     return res, counts
 
 
@@ -508,13 +538,164 @@ def enclosing_scope(src_dir, entry, cache):
     return ""
 
 
+
+# --------------------------------------------------------------------------- call closure of the API entry points
+
+# the nine calls of the thread model (Lemmas/InterleaveApi.lean, `Api`) and the simple name of the C++ function(s)
+# each of them enters.  Functions are identified BY SIMPLE NAME (all overloads, all overriders, every class):
+# a virtual call or a call through a template reaches every function of the repository with that name.
+API_ENTRIES = [
+    ("construct", "Handler"),
+    ("addListArg", "internAddArgument"),
+    ("addBracketHandler", "addBracketHandler"),
+    ("addSubGroupArg", "addArgument"),
+    ("evalUse", "evalArguments"),
+    ("usage", "usage"),
+    ("listArgGroups", "listArgGroups"),
+    ("addStandardArgument", "addStandardArgument"),
+    ("evalArgumentString", "evalArgumentString"),
+]
+SINGLETON_HEADER = "celma/common/singleton.hpp"
+# functions outside the repository known to keep hidden process-wide state (not re-entrant / locale / environment)
+HIDDEN_STATE = {"strtok", "localtime", "gmtime", "asctime", "ctime", "rand", "srand", "setlocale", "global",
+                "getenv", "setenv", "putenv", "unsetenv", "strerror", "tmpnam", "readdir", "getpwnam", "getpwuid",
+                "gethostbyname", "getlogin", "ttyname", "strsignal", "mblen", "mbtowc", "wctomb", "drand48", "lrand48",
+                "imbue", "sync_with_stdio"}
+DECL_NAME_RE = re.compile(r"(operator\s*(?:\(\s*\)|\[\s*\]|[-+*/%^&|~!=<>,]+|\s[\w:\s*&<>]+?)|~?[A-Za-z_]\w*)\s*\(")
+
+
+def decl_name(path, line, col, cache, names):
+    """simple name of the function declared at path:line:col (clang reports the first character of the
+    declaration): the identifier (or operator) in front of the first parenthesis, after any `template <..>`
+    header.  A declaration without a readable name (lambda, implicit member, macro) is named by its position --
+    the same function gets the same name wherever it is seen, which is all the closure needs."""
+    key = (path, line, col)
+    if key in names:
+        return names[key]
+    name = None
+    try:
+        seg = source_from(path, line, col, cache, 700)
+    except RuntimeError:
+        seg = ""
+    while True:
+        m = re.match(r"\s*template\s*<", seg)
+        if not m:
+            break
+        i, depth = m.end(), 1
+        while i < len(seg) and depth:
+            depth += {"<": 1, ">": -1}.get(seg[i], 0)
+            i += 1
+        seg = seg[i:]
+    if seg.lstrip()[:1] not in ("[", "(", "{", ""):
+        cut = len(seg)
+        for ch in "{;":
+            k = seg.find(ch)
+            if k >= 0:
+                cut = min(cut, k)
+        m = DECL_NAME_RE.search(seg[:cut])
+        if m:
+            name = re.sub(r"\s+", " ", m.group(1)).strip()
+            name = name.split("::")[-1] if not name.startswith("operator") else name
+    if not name:
+        name = "@%s:%d" % (os.path.basename(path), line)
+    names[key] = name
+    return name
+
+
+def entry_footprints(raw, repo, entries, exts, caller_list):
+    """per API entry point: what the functions reachable from it BY NAME can name.  Returns (list of dicts, summary)."""
+    src = os.path.join(repo, "src") + "/"
+    cache, names = {}, {}
+    in_repo = lambda f: f.startswith(src)
+    refs, edges, bind_sites = {}, {}, set()      # function name -> set
+    fn_files = {}                                  # function name -> files of its declarations (repository only)
+    n_edges = 0
+    for e in raw:
+        if e["kind"] == "ext-bind":
+            bind_sites.add(e["site"])
+    for e in raw:
+        if e["kind"] not in ("fn-ref", "fn-edge"):
+            continue
+        ff, fl, fc = e["fn"]
+        if not in_repo(ff):
+            continue
+        if ff[len(src):] == SINGLETON_HEADER:
+            # the members of common::Singleton<T> are the only code that names its statics; who calls them, under
+            # which guards, is the call-site table (matchers 5-7): their bodies are not part of any closure
+            continue
+        fn = decl_name(ff, fl, fc, cache, names)
+        fn_files.setdefault(fn, set()).add(ff[len(src):])
+        if e["kind"] == "fn-ref":
+            refs.setdefault(fn, set()).add((e["var"], e["site"]))
+        else:
+            cf_, cl, cc = e["callee"]
+            n_edges += 1
+            if in_repo(cf_):
+                if cf_[len(src):] == SINGLETON_HEADER:
+                    continue
+                edges.setdefault(fn, set()).add(("in", decl_name(cf_, cl, cc, cache, names)))
+            else:
+                edges.setdefault(fn, set()).add(("out", cf_ + ":%d" % cl, decl_name(cf_, cl, cc, cache, names) if cl else "<builtin>"))
+    # static objects by declaration position
+    stat_idx = {}
+    for i, en in enumerate(entries):
+        for ln in [en["line"]] + en.get("other_lines", []):
+            stat_idx[(en["file"], ln)] = i
+    ext_by_site = {}
+    for i, x in enumerate(exts):
+        for f, l in x["sites"]:
+            ext_by_site.setdefault((f, l), set()).add(i)
+    all_entry_names = set(n for _, n in API_ENTRIES)
+    res = []
+    for api, start in API_ENTRIES:
+        if start not in fn_files:
+            raise RuntimeError("API entry point %s: no function named `%s` in the repository" % (api, start))
+        cut = all_entry_names - {start}
+        seen, todo, nested, outs = {start}, [start], set(), {}
+        while todo:
+            f = todo.pop()
+            for ed in edges.get(f, ()):
+                if ed[0] == "out":
+                    outs[ed[1]] = ed[2]
+                elif ed[1] in cut:
+                    nested.add(ed[1])
+                elif ed[1] not in seen:
+                    seen.add(ed[1])
+                    todo.append(ed[1])
+        statics, used, bound, sites, unknown = set(), set(), set(), [], []
+        for f in sorted(seen):
+            for (vf, vl), site in sorted(refs.get(f, ())):
+                if in_repo(vf):
+                    i = stat_idx.get((vf[len(src):], vl))
+                    if i is not None:           # otherwise: a const object (only the mutable ones are in the inventory)
+                        statics.add(i)
+                        sites.append("%s names %s (%s:%d)" % (f, entries[i]["name"], site[0][len(src):], site[1]))
+                else:
+                    if not in_repo(site[0]):
+                        continue                # a default argument of a function outside the repository
+                    xs = ext_by_site.get((site[0][len(src):], site[1]), ())
+                    for i in xs:
+                        if site in bind_sites and exts[i]["name"] in ("cout", "cerr", "clog"):
+                            bound.add(i)
+                            sites.append("%s binds %s (%s:%d)" % (f, exts[i]["name"], site[0][len(src):], site[1]))
+                        else:
+                            used.add(i)
+                            sites.append("%s uses %s (%s:%d)" % (f, exts[i]["name"], site[0][len(src):], site[1]))
+        rows = sorted(set((c["file"], c["function"]) for c in caller_list if c["function"].split("::")[-1] in seen))
+        hidden = sorted(set(n for n in outs.values() if n in HIDDEN_STATE))
+        res.append({"api": api, "entry": start, "functions": len(seen), "external_callees": len(outs),
+                    "statics": sorted(statics), "used_externals": sorted(used), "bound_externals": sorted(bound),
+                    "singleton_callers": rows, "hidden_state_callees": hidden, "nested_entries": sorted(nested),
+                    "sites": sorted(set(sites)), "closure": sorted(seen), "files": sorted(set(x for f in seen for x in fn_files.get(f, ())))})
+    return res, {"functions": len(fn_files), "edges": n_edges}
+
 # --------------------------------------------------------------------------- Lean output
 
 def lean_str(s):
     return '"' + s.replace("\\", "\\\\").replace('"', '\\"') + '"'
 
 
-def emit_lean(path, method, files, entries, externals, n_const, n_tus, fallback_files, callers=()):
+def emit_lean(path, method, files, entries, externals, n_const, n_tus, fallback_files, callers=(), footprints=(), graph=None):
     L = []
     L.append("/-")
     L.append("  GENERATED by translate/shared_state.py from the working tree of the checked repository --")
@@ -534,6 +715,7 @@ def emit_lean(path, method, files, entries, externals, n_const, n_tus, fallback_
     L.append("  kind  : String   -- function-local | class-static | namespace-scope | token-scan")
     L.append("  scope : String   -- enclosing function / class (informational, best effort)")
     L.append("  insts : List String := []   -- further types the declaration was seen with (template instantiations)")
+    L.append("  otherLines : List Nat := [] -- further positions of the same object (out-of-class definition of a class-static)")
     L.append("deriving Repr, DecidableEq")
     L.append("")
     L.append("/-- a static-storage object declared outside the repository and named by reachable code -/")
@@ -556,9 +738,10 @@ def emit_lean(path, method, files, entries, externals, n_const, n_tus, fallback_
     L.append("def mutableStatics : List Entry := [")
     rows = []
     for e in entries:
-        rows.append("  { file := %s, line := %d, name := %s, type := %s, kind := %s, scope := %s, insts := [%s] }" % (
+        rows.append("  { file := %s, line := %d, name := %s, type := %s, kind := %s, scope := %s, insts := [%s]" % (
             lean_str(e["file"]), e["line"], lean_str(e["name"]), lean_str(e["type"]), lean_str(e["kind"]),
-            lean_str(e.get("scope", "")), ", ".join(lean_str(t) for t in e.get("insts", []))))
+            lean_str(e.get("scope", "")), ", ".join(lean_str(t) for t in e.get("insts", []))) +
+            ((", otherLines := [%s] }" % ", ".join(str(n) for n in e["other_lines"])) if e.get("other_lines") else " }"))
     L.append(",\n".join(rows))
     L.append("]")
     L.append("")
@@ -598,6 +781,52 @@ def emit_lean(path, method, files, entries, externals, n_const, n_tus, fallback_
         lean_str(c["file"]), lean_str(c["function"]), "true" if c["guarded"] else "false",
         ", ".join(lst(g) for g in c["guards"]),
         ", ".join("{ line := %d, guard := %s }" % (x["line"], lst(x["guard"])) for x in c["sites"])) for c in callers))
+    L.append("]")
+    L.append("")
+    nat_list = lambda l: "[%s]" % ", ".join(str(n) for n in l)
+    L.append("/-- what the CALL CLOSURE of one entry point of the thread model's `Api` can name.  Functions are identified by")
+    L.append("SIMPLE NAME: `entry` stands for every function of the repository with that name (all overloads, all classes),")
+    L.append("and the closure follows every function *named* inside a reached function -- callee of a call, constructor of a")
+    L.append("construct expression, function whose address is taken; bodies of lambdas and default arguments belong to the")
+    L.append("function they are written in -- to every function of the repository with the same simple name (so a virtual")
+    L.append("call reaches all overriders, a call in a template all instantiations' targets).  The closure stops at (a) the")
+    L.append("entry points of the *other* `Api` calls (`nestedEntries`: a nested call of another entry point is a call of its")
+    L.append("own in a thread's call list), (b) the members of `common::Singleton<T>` (singleton.hpp; their callers and")
+    L.append("guards are `singletonCallers`), (c) functions declared outside the repository (`externalCallees`, counted).")
+    L.append("`statics` / `usedExternals`: indices into `mutableStatics` / `externalStatics` of the objects a reached")
+    L.append("function names (guards are not evaluated: named = may be touched); `boundExternals`: standard streams that")
+    L.append("are only bound to a reference (constructor argument or default argument), not written at that place;")
+    L.append("`singletonCallers`: the rows (file, function) of the call-site table whose function's simple name is in the")
+    L.append("closure; `hiddenStateCallees`: external callees on the list of functions known to keep hidden process-wide")
+    L.append("state (strtok, localtime, setlocale, getenv ...). -/")
+    L.append("structure EntryFootprint where")
+    L.append("  api                : String")
+    L.append("  entry              : String")
+    L.append("  functions          : Nat")
+    L.append("  externalCallees    : Nat")
+    L.append("  statics            : List Nat")
+    L.append("  usedExternals      : List Nat")
+    L.append("  boundExternals     : List Nat")
+    L.append("  singletonCallers   : List (String × String)")
+    L.append("  hiddenStateCallees : List String")
+    L.append("  nestedEntries      : List String")
+    L.append("  sites              : List String   -- where the listed objects are named (for the error message / report)")
+    L.append("deriving Repr, DecidableEq")
+    L.append("")
+    L.append("/-- function names / (function, named function) pairs of the repository the closures were computed over -/")
+    L.append("def callGraphFunctions : Nat := %d" % (graph or {}).get("functions", 0))
+    L.append("def callGraphEdges : Nat := %d" % (graph or {}).get("edges", 0))
+    L.append("")
+    L.append("def entryFootprints : List EntryFootprint := [")
+    L.append(",\n".join(
+        "  { api := %s, entry := %s, functions := %d, externalCallees := %d,\n    statics := %s, usedExternals := %s, boundExternals := %s,\n"
+        "    singletonCallers := [%s],\n    hiddenStateCallees := [%s],\n    nestedEntries := [%s],\n    sites := [%s] }" % (
+            lean_str(fp["api"]), lean_str(fp["entry"]), fp["functions"], fp["external_callees"],
+            nat_list(fp["statics"]), nat_list(fp["used_externals"]), nat_list(fp["bound_externals"]),
+            ", ".join("(%s, %s)" % (lean_str(a), lean_str(b)) for a, b in fp["singleton_callers"]),
+            ", ".join(lean_str(x) for x in fp["hidden_state_callees"]),
+            ", ".join(lean_str(x) for x in fp["nested_entries"]),
+            ", ".join(lean_str(x) for x in fp["sites"])) for fp in footprints))
     L.append("]")
     L.append("")
     L.append("def reach : List String := [")
@@ -736,6 +965,8 @@ def handler_inventory(repo, lean_dir):
             # the same call site is seen once per unit that includes it
             c["sites"].setdefault((e["line"], e["col"]), tuple(e["guard"]))
             continue
+        if e["kind"] in ("fn-ref", "fn-edge", "ext-bind"):
+            continue                    # the call closure: entry_footprints() below
         if e["kind"] == "external-ref":
             x = externals.setdefault(e["name"], {"name": e["name"], "type": e["desugared"],
                                                  "mutable": not is_const_type(e["desugared"]), "sites": set()})
@@ -767,6 +998,23 @@ def handler_inventory(repo, lean_dir):
     for e in entries:
         e["insts"].sort()
         e["scope"] = enclosing_scope(src, e, cache)
+    # a class-static data member is seen twice (declaration in the class, definition outside): one entry per
+    # qualified name (file, class, name), the further positions kept in `otherLines`
+    merged, by_q = [], {}
+    for e in entries:
+        q = (e["file"], e["scope"], e["name"])
+        if e["kind"] == "class-static" and e["scope"] and q in by_q:
+            first = by_q[q]
+            first.setdefault("other_lines", []).append(e["line"])
+            for t in [e["type"]] + e["insts"]:
+                if t != first["type"] and t not in first["insts"]:
+                    first["insts"].append(t)
+            first["insts"].sort()
+            continue
+        if e["kind"] == "class-static" and e["scope"]:
+            by_q[q] = e
+        merged.append(e)
+    entries = merged
     exts = []
     n_const_ext = 0
     for x in sorted(externals.values(), key=lambda x: x["name"]):
@@ -776,7 +1024,7 @@ def handler_inventory(repo, lean_dir):
         else:
             n_const_ext += 1          # e.g. std::string::npos: immutable, only counted
     files_out = sorted(inreach)
-    out = os.path.join(lean_dir, OUT_REL)
+    out = os.path.join(lean_dir, OUT_REL) if lean_dir else None
     caller_list = []
     for k in sorted(callers):
         c = callers[k]
@@ -784,7 +1032,9 @@ def handler_inventory(repo, lean_dir):
         caller_list.append({"file": c["file"], "function": c["function"],
                             "guarded": all(x["guard"] for x in sites),      # one call outside every branch: unguarded caller
                             "guards": sorted(set(tuple(x["guard"]) for x in sites)), "sites": sites})
-    changed = emit_lean(out, method, files_out, entries, exts, len(n_const_keys - set(by_key)), len(tus) + 1, sorted(fallback), caller_list)
+    footprints, graph = entry_footprints(raw, repo, entries, exts, caller_list)
+    changed = emit_lean(out, method, files_out, entries, exts, len(n_const_keys - set(by_key)), len(tus) + 1, sorted(fallback), caller_list,
+                        footprints, graph) if lean_dir else False
     return {
         "method": method,
         "translation_units": len(tus) + 1,
@@ -794,12 +1044,14 @@ def handler_inventory(repo, lean_dir):
         "singleton_callers": ["%s %s: %s" % (c["file"], c["function"], "; ".join(
             "line %d %s" % (x["line"], ("if " + " && ".join(x["guard"])) if x["guard"] else "unguarded") for x in c["sites"]))
             for c in caller_list],
+        "call_graph": graph,
+        "entry_footprints": [{k: v for k, v in fp.items() if k not in ("files", "closure")} for fp in footprints],
         "external_statics": ["%s : %s%s (%d sites)" % (x["name"], x["type"], "" if x["mutable"] else " [const]", len(x["sites"])) for x in exts],
         "const_statics": len(n_const_keys - set(by_key)),
         "const_external_statics": n_const_ext,
         "token_scan_units": tu_errors,
         "headers_not_self_contained": reordered,
-        "output": os.path.relpath(out, lean_dir),
+        "output": os.path.relpath(out, lean_dir) if lean_dir else None,
         "output_changed": changed,
     }
 
@@ -810,6 +1062,7 @@ if __name__ == "__main__":
     lean = os.path.join(os.path.dirname(os.path.dirname(os.path.abspath(__file__))), "lean")
     if len(sys.argv) > 1:
         repo = sys.argv[1]
+        lean = None                 # one argument = facts only, nothing is written
     if len(sys.argv) > 2:
         lean = sys.argv[2]
     json.dump(handler_inventory(repo, lean), sys.stdout, indent=1)
